@@ -30,12 +30,16 @@ func TestVerif(t *testing.T) {
 	case "C07":
 		verifSched(t, r, out, "sch7")
 		verifAdv(t, r, out, "adv7")
+	case "C08":
+		verifC08(t, r, out)
 	case "C09":
 		verifC09(t, r, out)
 	case "C12":
 		verifC12(t, r, out)
 	case "C18":
 		verifC18(t, r, out)
+	case "C20":
+		verifC20(t, r, out)
 	default:
 		t.Fatalf("unknown VERIF_PROP %q for package corerad", prop)
 	}
